@@ -53,12 +53,14 @@ func vxH_C07_rounds() {
 		}
 		vxFillBatch(b, big)
 		ref.layers = append(ref.layers, big)
-		cb, cerr := b.NewChildCollectionBatch("a", BatchOptions{TotalOps: 2, TotalKeyValBytes: 16})
-		vxAssert("childbatch-ok", cerr == nil)
-		cents := vxFixedSet()
-		vxFillBatch(cb, cents)
-		ref.kids["a"] = vxNewNode()
-		ref.kids["a"].layers = append(ref.kids["a"].layers, cents)
+		if vxChoose(2) == 1 {
+			cb, cerr := b.NewChildCollectionBatch("a", BatchOptions{TotalOps: 2, TotalKeyValBytes: 16})
+			vxAssert("childbatch-ok", cerr == nil)
+			cents := vxFixedSet()
+			vxFillBatch(cb, cents)
+			ref.kids["a"] = vxNewNode()
+			ref.kids["a"].layers = append(ref.kids["a"].layers, cents)
+		}
 		vxAssert("executebatch-ok", coll.ExecuteBatch(b, WriteOptions{}) == nil)
 		b.Close()
 		vxDrain(coll)
@@ -119,5 +121,16 @@ func vxH_C07_rounds() {
 	// known finding: mappings/files referenced by child collection footers
 	// are never released, so a superseded file that held child segments
 	// is never closed and never removed.
-	vxAssertK("superseded-files-removed", len(fs.names()) == 1, "C15-child-footer-never-released", len(ref.kids) > 0)
+	vxAssertK("superseded-files-removed", len(fs.names()) <= 1, "C15-child-footer-never-released", len(ref.kids) > 0)
+	// the known finding excuses a file too many, never a file too few
+	vxAssert("current-data-file-kept", len(fs.names()) >= 1)
+	// and what is left reopens to the same content
+	store2, coll2, err2 := OpenStoreCollection(fs.dir, so, po)
+	vxAssert("reopen-ok", err2 == nil)
+	cs2, cerr2 := coll2.Snapshot()
+	vxAssert("reopen-snapshot-ok", cerr2 == nil)
+	vxCheckTree("reopened", cs2, ref, K, kb, names, none)
+	cs2.Close()
+	coll2.Close()
+	store2.Close()
 }
